@@ -532,8 +532,14 @@ fn run_job_inner(args: &Args, job: &Value, seq: usize) -> Value {
             op["per_thread"].as_u64().unwrap_or(50) as usize,
             op["seed"].as_u64().unwrap_or(1),
             op["flood"].as_u64().unwrap_or(0) as usize,
+            op["churn"].as_u64().unwrap_or(0) as usize,
         );
         drop(root);
+        let _ = std::fs::remove_dir_all(&sb);
+        return out;
+    }
+    if op["k"].as_str() == Some("reopen_ofd") {
+        out["res"] = reopen_ofd(&rootpath, &op);
         let _ = std::fs::remove_dir_all(&sb);
         return out;
     }
@@ -829,6 +835,43 @@ fn run_job_inner(args: &Args, job: &Value, seq: usize) -> Value {
 /// reopen from a thread with a private descriptor table (unshare(CLONE_FILES)):
 /// the thread-group leader holds a decoy file at the same descriptor number.
 /// Not traced (the supervisor shares the leader's table, not the worker's).
+/// "a NEW open file description": a handle made from an ordinary descriptor (opened with `hflags`) is reopened with `flags`;
+/// reading from the result must not move the handle's file offset, and changing the result's status flags must not change the
+/// handle's.  (An O_PATH description has neither, which is why handles from resolve() cannot show the difference.)
+fn reopen_ofd(rootpath: &Path, op: &Value) -> Value {
+    let p = rootpath.join(OsStr::from_bytes(&unhex(op["path"].as_str().unwrap_or(""))));
+    let hflags = op["hflags"].as_i64().unwrap_or(0) as i32;
+    let flags = op["flags"].as_i64().unwrap_or(0) as i32;
+    let cp = std::ffi::CString::new(p.as_os_str().as_bytes()).unwrap();
+    let hfd = unsafe { libc::open(cp.as_ptr(), hflags | libc::O_CLOEXEC) };
+    if hfd < 0 {
+        return json!({"setup_err": format!("open: {}", std::io::Error::last_os_error())});
+    }
+    let h = Handle::from_fd(unsafe { OwnedFd::from_raw_fd(hfd) });
+    let r = match h.reopen(OpenFlags::from_bits_retain(flags)) {
+        Ok(f) => f,
+        Err(e) => return json!({"err": {"kind": format!("{:?}", e.kind())}}),
+    };
+    let nfd = r.as_raw_fd();
+    unsafe {
+        let same_inode = {
+            let mut a: libc::stat = std::mem::zeroed();
+            let mut b: libc::stat = std::mem::zeroed();
+            libc::fstat(hfd, &mut a) == 0 && libc::fstat(nfd, &mut b) == 0 && a.st_dev == b.st_dev && a.st_ino == b.st_ino
+        };
+        let before = libc::lseek(hfd, 0, libc::SEEK_CUR);
+        let moved_new = libc::lseek(nfd, 3, libc::SEEK_SET);
+        let after = libc::lseek(hfd, 0, libc::SEEK_CUR);
+        let fl_before = libc::fcntl(hfd, libc::F_GETFL);
+        let nfl = libc::fcntl(nfd, libc::F_GETFL);
+        let set = libc::fcntl(nfd, libc::F_SETFL, nfl ^ libc::O_NONBLOCK);
+        let fl_after = libc::fcntl(hfd, libc::F_GETFL);
+        json!({"ok": true, "same_inode": same_inode, "handle_offset_before": before, "new_offset_set_to": moved_new,
+               "handle_offset_after": after, "handle_getfl_before": fl_before, "handle_getfl_after": fl_after, "setfl_rc": set,
+               "new_getfl": nfl})
+    }
+}
+
 fn reopen_unshared(rootpath: &Path, sb: &Path, op: &Value) -> Value {
     let rootpath = rootpath.to_path_buf();
     let decoy_path = sb.join("decoy_for_leader");
